@@ -96,8 +96,44 @@ func famLifecycle(w *World, c *Case, rng *rand.Rand) {
 	steps := c.p("steps", 8)
 	var trace []string
 	for s := 0; s < steps; s++ {
-		op := rng.Intn(10)
+		op := rng.Intn(11)
 		switch {
+		case op == 10:
+			// a Serve call that is still on its way in (the tunnel has been opened, the serving
+			// instance is not registered yet) when Stop / GracefulStop + Stop run: it was not part
+			// of the shutdown, so once it gets there it must be refused and leave nothing behind
+			how := rng.Intn(2)
+			trace = append(trace, []string{"Serve||Stop", "Serve||GracefulStop+Stop"}[how])
+			w.installYield(&YieldPlan{Parks: map[string][]time.Duration{"revsrv.serve.beforeAdd": {5 * time.Millisecond}}})
+			before := len(serves)
+			linksBefore := len(w.Conn.Links())
+			startServe()
+			w.Advance(time.Millisecond)
+			if how == 1 {
+				bg("GracefulStop", rs.GracefulStop)
+				closing = true
+				w.Advance(time.Millisecond)
+			}
+			bg("Stop", rs.Stop)
+			stopped = true
+			settle()
+			w.installYield(&YieldPlan{})
+			w.Stat("lifecycle_serve_racing_stop", 1)
+			cl := serves[before]
+			select {
+			case <-cl.done:
+				if cl.ok || cl.err == nil {
+					w.Violate("C10", "serve-racing-stop-accepted", "lifecycle %v: a Serve call that registered after Stop had run returned started=%v err=%v", trace, cl.ok, cl.err)
+				}
+			default:
+				w.Violate("C10", "serve-still-running-after-stop", "lifecycle %v: Stop has returned and a Serve call that was on its way in is still serving", trace)
+			}
+			for _, l := range w.Conn.Links()[linksBefore:] {
+				cd, _ := l.ClientDone()
+				if !cd || !l.ServerDone() {
+					w.Violate("C10", "tunnel-alive-after-stop", "lifecycle %v: a reverse tunnel opened by a Serve call that was on its way in during Stop is still alive (client side finished: %v, peer's serving call returned: %v)", trace, cd, l.ServerDone())
+				}
+			}
 		case op < 3:
 			trace = append(trace, "Serve")
 			before := len(serves)
